@@ -94,6 +94,7 @@ func c18(tier string) {
 		"non-trivial & distinct = (pair, sub-command, prior state) whose expected output is a non-empty report / policy / normalised input"
 	ctx.Assumptions = []string{"stdout carries the output followed by exactly one newline (Println); the file holds exactly the report", "the check runs as root: a read-only output file is writable, it must then hold exactly the report"}
 	n := ctx.N(24, 120)
+	ctx.NoDebugWorkers = true
 	if !ctx.IsShard() {
 		ctx.RunShards()
 		ctx.MinDistinct = 60
